@@ -104,6 +104,25 @@ claim('C14', 'provenance of (result, source, reason) along the refusal chain; pa
       'unreachable after it; RELEASE-RQ/ABORT/RJ mapped to the right errors with fields in order; release answered with '
       'A-RELEASE-RP; the context manager releases on normal exit, aborts and re-raises on exception.',
       'Trusted: C02 for wire positions. Not decided: timing relative to DIMSE traffic.', 'DESIGN.md section 3 C14')
+claim('C15', 'path rule on the storage-file creation (exclusive create or proven-absent name), provenance of status/UIDs in storage_scu/storage_scp, flag-order rule on every dsutils call site',
+      'ONLY these clauses are decided: (V1) the directory-backed get_file never opens an existing file for writing; (V2) status and '
+      'SOP class/instance provenance in the storage user and provider; (V3) the application receives the received data set object '
+      'itself and all 14 dsutils call sites of sopclass.py pass the negotiated syntax flags in the right order. The end-to-end '
+      'integrity of the byte path is the composition of C01, C06, C07 and is not re-decided here.',
+      'NOT decided (outside static analysis): integrity through the whole stack over real loopback TCP with real threads, sizes and '
+      'transfer syntaxes; readability of stored files by pydicom.', 'DESIGN.md section 3 C15')
+claim('C16', 'per-iteration path analysis of provider and user loops with provenance terms; ownership (no write after send) rule over all send sites',
+      'Provider: one response per match carrying that match\'s status and data set, exactly one final non-pending response (also '
+      'when the application signals an error); user: one receive and one yield per iteration, stop iff not pending; worklist and '
+      'c_find variants forward pairs unchanged; no message object is modified after it was handed to the lazy encoder, incl. via '
+      'loop back-edges (the defect that made P0,P1,P2 arrive as P2,P2,P2).',
+      'Not decided: multi-fragment behaviour on the wire (C06/C07). Pending classification is C18\'s.', 'DESIGN.md section 3 C16')
+claim('C17', 'provenance of every response field at each of the 7 response construction sites; exception-flow rule for handler calls; answered-on-every-path rule',
+      'For each provider callable and every send path: context id, Message ID Being Responded To, SOP class/instance, response '
+      'type = request | 8000H, status from the handler or a failure-class constant on the EventHandlingError edge, exactly one '
+      'final response on every normal path, every written field backed by the class\'s command_fields.',
+      'Assumes applications signal failure only through EventHandlingError (documented). The N-ACTION response uses the '
+      'well-known Storage Commitment Push Model instance (PS3.4 J.3) - frozen exception.', 'DESIGN.md section 3 C17')
 claim('C18', 'shape rules (provenance) on add_status/register_statuses/Status.__init__ + interval arithmetic on the folded KNOWN_STATUSES table',
       'Exhaustive over 65536 codes x 11 response classes + none without enumerating codes: the registration and lookup '
       'functions are shown to implement inclusive ranges and specific-before-general-before-UNKNOWN, then the 57 rows are '
@@ -111,6 +130,20 @@ claim('C18', 'shape rules (provenance) on add_status/register_statuses/Status.__
       'no conflicting rows, UNKNOWN is Failure); int() returns the code.',
       'Trusted: CPython dict/range semantics. Not decided: agreement of general codes with PS3.7 Annex C (not stated).',
       'DESIGN.md section 3 C18')
+
+claim('C19', 'per-iteration path analysis of qr_get_scu and qr_move_scp; induction-variable closed form for the progress counters',
+      'C-GET user: each received C-STORE request answered once on its context, at most one yield, loop left only on a non-pending '
+      'C-GET response. C-MOVE provider: one store per instance on the sub-association to the application\'s destination; at the '
+      'k-th report completed = k and remaining = total - k (counter starts at 0, +1 before the fields are filled); exactly one '
+      'final response on every path incl. nothing-to-move and application errors.',
+      'Not decided: behaviour of the sub-association itself (C15/C11).', 'DESIGN.md section 3 C19')
+claim('C20', 'sharing inventory: who-may-write rules over a name-based call graph, per-instance-state and aliasing rules, thread-local rule',
+      'Necessary conditions only: message ids live in a threading.local; every per-association class creates its mutable state '
+      'per instance; the entity\'s shared configuration is written only by the configuration API, unreachable from association '
+      'threads; the live context definition list is only ever copied under the lock; no module/class-level container is mutated '
+      'from association-reachable code; storage files are created atomically.',
+      'NOT decided (outside static analysis): behaviour under concrete thread interleavings and independence of failures. '
+      'Zero-expected rules carry built-in positive examples.', 'DESIGN.md section 3 C20')
 
 NOT_YET = 'check not built yet (build in progress, see DESIGN.md section 8)'
 
